@@ -26,7 +26,9 @@ MC_StrLits  == {"p", "q r"}
 MC_StrLits_T == {"p", "q r", "", "SELECT * from"}
 MC_TrickyStrs   == {"true", "False", "desc", "and", "left", "null", "=", ",", "(", ";", "*", ".", "!=", "7", "", "a --b", "/* x",
                      "C:\\\\", "\\\\", "it\\'s",
-                     "C:\\Users", "x\\0", "a\\u", "p\\x4"}    \* contents ending in an escaped backslash (the quote after it closes the literal); an escaped quote
+                     "C:\\Users", "x\\0", "a\\u", "p\\x4",
+                     \* quotes of the other kind at the edges of the content: they are content
+                     "\"x\"", "say \"hi\"", "\""}    \* contents ending in an escaped backslash (the quote after it closes the literal); an escaped quote
 MC_TrickyStrs_S == {"true", "="}
 MC_QuotedIdents   == {"select", "Desc", "true", "a b", "q <U+1F600>"}
 MC_QuotedIdents_S == {"select"}
